@@ -19,8 +19,9 @@ PROP = {'gen': [],
                'TTYCommandDecoder / Utf8Decoder run in a child process)',
  'level_text': 'Coq theorems over an executable model of the three public decoders (generic tokeniser of C03 instantiated at the '
                'automata regenerated from the source, one checked Gallina function per Matcher::decode body): for every byte string and '
-               'every partition into reads no payload decoder panics on any string the automaton accepts (shape certificates checked by '
-               'reflection on the regenerated tables), the loops terminate, an exhausted decoder returns None; characters are scalar '
+               'every partition into reads no payload decoder panics on any string the automaton accepts (three shape certificates - '
+               'lengths, XTWINOPS pieces, XTGETTCAP hex fields - checked by reflection on the regenerated tables), the loops terminate, an '
+               'exhausted decoder returns None, Utf8Decoder never overruns its buffer; characters are scalar '
                'values, numeric fields are the unbounded decimal values of their digits or the sequence is unrecognised, raw events are '
                'non-empty and spans reassemble the input in order.',
  'level_note': 'Trusted: Coq kernel + vm_compute; hand-written payload models validated by the correspondence run; DFA dump hook + '
